@@ -3,6 +3,7 @@
 // exact key (vertex records incl. tombstones and adjacency-list order + uid->index map), full query battery in every state.
 // modes: cgraph     CGraph, universe {1..n} (default n=3): AddItem / EraseItem / AddConnection / SetItemInputs(all subsets) / Clear
 //        cgraph4    same code, default n=4 (thorough only)
+//        cgraph4e   n=4 with the edge-wise alphabet only (no SetItemInputs): reaches two more operations of depth on 4 identifiers
 //        updatable  UpdatableGraph: AddItem / EraseItem / AddConnection / Clear / Invalidate / SetValid / UpdateFor(u) with the
 //                   callback's answer enumerated over all subsets of the universe
 // Behaviour asserted = what CGraph.h + upstream tests (ccl/cclGraph/test/src/testConnectionsGraph.cpp) document, see model/refgraph.hpp.
@@ -71,6 +72,7 @@ struct GraphSys {
   using Op = OpRec;
   int n{ 3 };               // universe {1..n}
   bool updatable{ false };
+  bool setInputs{ true };   // offer SetItemInputs / UpdateFor with every subset
 
   int seeds() const { return 3; }
 
@@ -98,7 +100,7 @@ struct GraphSys {
     for (int u = 1; u <= n; ++u) ops.push_back(Op{ kAddItem, u, 0, 0 });
     for (int u = 1; u <= n; ++u) for (int v = 1; v <= n; ++v) ops.push_back(Op{ kAddConnection, u, v, 0 });
     for (int u = 1; u <= n; ++u) ops.push_back(Op{ kEraseItem, u, 0, 0 });
-    for (int u = 1; u <= n; ++u) for (int mask = 0; mask < (1 << n); ++mask) ops.push_back(Op{ updatable ? kUpdateFor : kSetItemInputs, u, mask, 0 });
+    if (setInputs) for (int u = 1; u <= n; ++u) for (int mask = 0; mask < (1 << n); ++mask) ops.push_back(Op{ updatable ? kUpdateFor : kSetItemInputs, u, mask, 0 });
     if (updatable) { ops.push_back(Op{ kInvalidate, 0, 0, 0 }); ops.push_back(Op{ kSetValid, 0, 0, 0 }); }
     ops.push_back(Op{ kClear, 0, 0, 0 });
     return ops;
@@ -286,7 +288,8 @@ int main(int argc, char** argv) {
   GraphSys sys;
   int depth = 0;
   if (opt.mode == "cgraph") { sys.n = static_cast<int>(opt.num("universe", 3)); depth = static_cast<int>(opt.num("depth", opt.thorough() ? 7 : 5)); }
-  else if (opt.mode == "cgraph4") { sys.n = static_cast<int>(opt.num("universe", 4)); depth = static_cast<int>(opt.num("depth", 4)); }
+  else if (opt.mode == "cgraph4") { sys.n = static_cast<int>(opt.num("universe", 4)); depth = static_cast<int>(opt.num("depth", 3)); }
+  else if (opt.mode == "cgraph4e") { sys.n = static_cast<int>(opt.num("universe", 4)); sys.setInputs = false; depth = static_cast<int>(opt.num("depth", 5)); }
   else if (opt.mode == "updatable") { sys.updatable = true; sys.n = static_cast<int>(opt.num("universe", 3)); depth = static_cast<int>(opt.num("depth", opt.thorough() ? 6 : 5)); }
   else { fprintf(stderr, "unknown mode\n"); return 2; }
   if (sys.n < 1 || sys.n > 6) { fprintf(stderr, "universe out of range\n"); return 2; }
@@ -310,7 +313,7 @@ int main(int argc, char** argv) {
   const std::string U = "{1.." + std::to_string(sys.n) + "}";
   res.alphabet = sys.updatable
     ? "UpdatableGraph over U=" + U + ": AddItem(u) EraseItem(u) AddConnection(u,v) (all pairs, self-loops, duplicates) UpdateFor(u) with callback answer = every S subset of U, Invalidate, SetValid, Clear; seeds: empty | tombstone + 2-cycle | chain 1>2>3 created in reverse order, broken"
-    : "CGraph over U=" + U + ": AddItem(u) EraseItem(u) AddConnection(u,v) (all pairs, self-loops, duplicates) SetItemInputs(u,S) for every S subset of U, Clear; seeds: empty | tombstone + 2-cycle | chain 1>2>3 created in reverse order";
+    : "CGraph over U=" + U + ": AddItem(u) EraseItem(u) AddConnection(u,v) (all pairs, self-loops, duplicates) " + (sys.setInputs ? "SetItemInputs(u,S) for every S subset of U, " : "(SetItemInputs not offered in this mode) ") + "Clear; seeds: empty | tombstone + 2-cycle | chain 1>2>3 created in reverse order";
   res.rule = "state = exact private representation (vertex records with tombstones and adjacency order + uid->index map [+ invalid flag]) reached by a history replayed on a fresh real object; "
              "every distinct state gets the battery: Contains / InputsFor on U+{foreign 9}, ConnectionExists + IsReachableFrom on all ordered pairs, ItemsCount, ConnectionsCount, ExpandOutputs / ExpandInputs / Sort on ALL subsets of U+{9}, "
              "HasLoop, GetAllLoopsItems == cyclic SCCs (set of sets), TopologicalOrder permutation (+ edges forward when acyclic), InverseTopologicalOrder == reverse; every transition: counts, documented no-ops leave the representation unchanged; "
